@@ -307,6 +307,31 @@ def check_update_target(v0: int, v1: int, v2: int, v3: int, s0: int, s1: int, s2
     return ok & inv_sym(M) & counts_ok(flags, [])
 
 
+TGT2 = int(os.environ.get("TGT2", "-1"))
+
+
+def check_update_two(v0: int, v1: int, v2: int, v3: int, s0: int, s1: int, s2: int, s3: int, s4: int, s5: int, f0: bool, f1: bool, f2: bool, f3: bool, f4: bool, f5: bool, auto: bool) -> bool:
+    """
+    Model.update(a, b) with two targets: both and all their ancestors up to date with from-scratch values, everything else untouched
+    post: _ == True
+    """
+    vals, stale, flags = [v0, v1, v2, v3][:NV], [s0, s1, s2, s3, s4, s5][:NC], [f0, f1, f2, f3, f4, f5][:NC]
+    flags = load(vals, stale, flags, auto)
+    n1, n2 = CACHING[TGT], CACHING[TGT2]
+    before = snapshot()
+    M.update(n1, n2)
+    up = set(closure_up(n1)) | set(closure_up(n2)) | {n1, n2}
+    if any(M.nodes[p].outdated for p in up if p in CACHING):
+        return False
+    ok = values_match_scratch([n1, n2])
+    for (n, o, val) in before:
+        if n not in up:
+            if M.nodes[n].outdated != o:
+                return False
+            ok = ok & (M.nodes[n].value == val)
+    return ok & inv_sym(M) & counts_ok(flags, [])
+
+
 def check_toggle_and_state(v0: int, v1: int, v2: int, v3: int, s0: int, s1: int, s2: int, s3: int, s4: int, s5: int, f0: bool, f1: bool, f2: bool, f3: bool, f4: bool, f5: bool, auto: bool) -> bool:
     """
     toggling auto-update and saving / restoring the state change neither values nor flags
